@@ -50,15 +50,17 @@ theorem C16_binary_prefix_stable (btag atag tail : Bytes) (hb : IsBinTag btag) (
   bin_correct_prefix btag atag tail hb ha ma mi t hma hmi ht k hk hlen
 
 /-- **Soundness**: whatever is classified really carries, in this order, a bin
-    tag, an array tag, the saltpack format name, that version and that mode -/
+    tag, an array tag, and — as go-codec's typed decoders (`Model/Codec.lean`) read
+    them from the bytes that follow — the saltpack format name (`Decode(&string)`:
+    bin, str or an array of small ints), that version (`Decode(&Version)`) and that
+    mode (`Decode(&MessageType)`) -/
 theorem C16_binary_sound (b : Bytes) (t : Int) (v : Version) (h : binarySlice b = .ok (t, v)) :
     isMode t = true ∧ 23 ≤ b.length ∧
-    ∃ skip askip fn r1 more r2 r3,
+    ∃ skip askip r1 r2 r3,
       (skip = 2 ∨ skip = 3 ∨ skip = 5) ∧ (askip = 1 ∨ askip = 3 ∨ askip = 5) ∧
-      parse1 (b.drop (skip + askip)) = .ok (fn, r1) ∧
-      (fn = .str Gen.c_sp_FormatName ∨ fn = .bin Gen.c_sp_FormatName) ∧
-      parse1 r1 = .ok (.arr (.int v.major :: .int v.minor :: more), r2) ∧
-      parse1 r2 = .ok (.int t, r3) :=
+      decName (b.drop (skip + askip)) = .ok (Gen.c_sp_FormatName, r1) ∧
+      decVersionTop r1 = .ok (v, r2) ∧
+      decMode r2 = .ok (t, r3) :=
   bin_sound b t v h
 
 theorem C16_only_four_modes (b : Bytes) (t : Int) (v : Version) (h : binarySlice b = .ok (t, v)) :
